@@ -1,6 +1,6 @@
 CONSTANTS Alphabet = {"/", ":", ".", "@", "_", "#", "a", "b"}
- MaxColon = 8
- MaxAt = 8
+ MaxColon = 7
+ MaxAt = 7
  MaxSlash = 8
  Emit = TRUE
  GenDepth = 3
